@@ -285,6 +285,36 @@ def reachPr (D : Nat) (ops : List Op) : St := run (init D) ops
 
 theorem reachPr_inv (D : Nat) (hD : 0 < D) (ops : List Op) : PInv (reachPr D ops) := pinv_run (pinv_init D hD) ops
 
+theorem reachPr_D (D : Nat) (ops : List Op) : (reachPr D ops).D = D := by
+  have : ∀ (s : St) (ops : List Op), (run s ops).D = s.D := by
+    intro s ops
+    induction ops generalizing s with
+    | nil => rfl
+    | cons o os ih =>
+      simp only [run, List.foldl] at ih ⊢
+      rw [ih]
+      have hadv : ∀ fuel target (x : St), (advLoop fuel target x).1.D = x.D := by
+        intro fuel target
+        induction fuel with
+        | zero => intro x; rfl
+        | succ fuel ih2 =>
+          intro x
+          match hq : x.queue with
+          | [] => rw [advLoop_nil _ _ _ hq]
+          | (r0, d) :: rest =>
+            by_cases hd : d ≤ target
+            · rw [advLoop_due _ _ _ hq hd]; simp only []; rw [ih2]; unfold fire; split <;> rfl
+            · rw [advLoop_notdue _ _ _ hq hd]
+      have hal : ∀ (x : St) l r, (addLink x l r).D = x.D := by intro x l r; unfold addLink; split <;> rfl
+      cases o with
+      | adv k => exact hadv _ _ _
+      | ev l => rfl
+      | attach r => simp only [step]; split <;> rfl
+      | link r l => simp only [step]; (repeat' split) <;> first | rfl | exact hal _ _ _
+      | rsync r l => simp only [step]; (repeat' split) <;> first | rfl | exact hal _ _ _
+      | unlink r l => simp only [step]; (repeat' split) <;> rfl
+  exact this (init D) ops
+
 /-- **A remote is deregistered only by the clock, only while it has no link, and only at the deadline of a timeout that
 was scheduled for IT**: that deadline is the full delay after a moment at which the remote attached or lost its last
 link. (With the shared timer re-armed per entry nobody is pruned at somebody else's deadline.) -/
@@ -295,35 +325,7 @@ theorem C03_prune_closed_only_linkless_at_own_deadline (D : Nat) (hD : 0 < D) (o
   have h := reachPr_inv D hD ops
   obtain ⟨hk, hq, hl, hr⟩ := closed_of_step _ op r t hm
   obtain ⟨p, hp, ht, _⟩ := h.q6 r t hq
-  have hDD : (reachPr D ops).D = D := by
-    have : ∀ (s : St) (ops : List Op), (run s ops).D = s.D := by
-      intro s ops
-      induction ops generalizing s with
-      | nil => rfl
-      | cons o os ih =>
-        simp only [run, List.foldl] at ih ⊢
-        rw [ih]
-        have hadv : ∀ fuel target (x : St), (advLoop fuel target x).1.D = x.D := by
-          intro fuel target
-          induction fuel with
-          | zero => intro x; rfl
-          | succ fuel ih2 =>
-            intro x
-            match hq : x.queue with
-            | [] => rw [advLoop_nil _ _ _ hq]
-            | (r0, d) :: rest =>
-              by_cases hd : d ≤ target
-              · rw [advLoop_due _ _ _ hq hd]; simp only []; rw [ih2]; unfold fire; split <;> rfl
-              · rw [advLoop_notdue _ _ _ hq hd]
-        have hal : ∀ (x : St) l r, (addLink x l r).D = x.D := by intro x l r; unfold addLink; split <;> rfl
-        cases o with
-        | adv k => exact hadv _ _ _
-        | ev l => rfl
-        | attach r => simp only [step]; split <;> rfl
-        | link r l => simp only [step]; (repeat' split) <;> first | rfl | exact hal _ _ _
-        | rsync r l => simp only [step]; (repeat' split) <;> first | rfl | exact hal _ _ _
-        | unlink r l => simp only [step]; (repeat' split) <;> rfl
-    exact this (init D) ops
+  have hDD := reachPr_D D ops
   exact ⟨hk, hr, (linkless_iff _ r).mp hl, p, hp, by rw [ht, hDD], (h.q7 r p hp).1⟩
 
 /-- **A remote that has a link when its timeout fires survives**: no advance of the clock closes a linked remote. -/
@@ -366,27 +368,21 @@ theorem C03_prune_idle_remote_removed_in_time (D : Nat) (hD : 0 < D) (ops : List
   have hq := h.q3 r hr (by simp) ((linkless_iff _ r).mpr hl)
   exact ⟨hq, h.q1 r _ hq⟩
 
-/-- "A remote is removed only after it has been CONTINUOUSLY without links for the full delay" is **false** of the code
-as it is: a queued timeout is never withdrawn, so an old entry of the same remote removes it (finding C03-N1). -/
-def C03_prune_removed_only_after_full_delay : Prop :=
-  ∀ (D : Nat) (ops : List Op) (op : Op) (r t : Nat), 0 < D →
-    (r, Ev.closed t) ∈ (step (reachPr D ops) op).2.2 → idleOf (reachPr D ops) r + D ≤ t
-
-/-- Witness: attached at 0, linked at 100, unlinked at 600, removed at 701. -/
-theorem C03_prune_removed_only_after_full_delay_fails : ¬ C03_prune_removed_only_after_full_delay := by
-  intro h
-  have := h 701 [.attach 1, .adv 1, .link 1 0, .adv 5, .unlink 1 0] (.adv 2) 1 701 (by decide) (by decide)
-  revert this
-  decide
-
-/-- What does hold: for a remote that has had one link-less period only (it never got a second timeout scheduled) the
-removal comes exactly the full delay after that period began. -/
-theorem C03_prune_removed_only_after_full_delay_partial (D : Nat) (hD : 0 < D) (ops : List Op) (op : Op) (r t : Nat)
-    (hm : (r, Ev.closed t) ∈ (step (reachPr D ops) op).2.2)
-    (hone : ∀ p, (r, p) ∈ (reachPr D ops).sched → p = idleOf (reachPr D ops) r) :
-    t = idleOf (reachPr D ops) r + D := by
+/-- **A remote is removed only after it has been CONTINUOUSLY without links for the full delay** — exactly the delay
+after its current link-less period began. (False before the repair 8d5e4f1 of C03-N1, when a stale entry of the same
+remote could remove it; the witness — attached at 0, linked at 100, unlinked at 600 — is now removed at 1301, not 701.) -/
+theorem C03_prune_removed_only_after_full_delay (D : Nat) (hD : 0 < D) (ops : List Op) (op : Op) (r t : Nat)
+    (hm : (r, Ev.closed t) ∈ (step (reachPr D ops) op).2.2) :
+    t = idleOf (reachPr D ops) r + D ∧ idleOf (reachPr D ops) r + D ≤ t := by
   obtain ⟨_, _, _, p, hp, ht, _⟩ := C03_prune_closed_only_linkless_at_own_deadline D hD ops op r t hm
-  rw [ht, hone p hp]
+  have h := reachPr_inv D hD ops
+  have ht' := closed_time_of_step h op r t hm
+  rw [reachPr_D D ops] at ht'
+  exact ⟨ht', by omega⟩
+
+example : (step (reachPr 701 [.attach 1, .adv 1, .link 1 0, .adv 5, .unlink 1 0]) (.adv 2)).2.2 = [] := by decide
+example : (step (reachPr 701 [.attach 1, .adv 1, .link 1 0, .adv 5, .unlink 1 0, .adv 2]) (.adv 6)).2.2 =
+    [(1, .closed 1301)] := by decide
 
 example : (step (reachPr 701 [.attach 1, .adv 4, .attach 2]) (.adv 4)).2.2 = [(1, .closed 701)] := by decide
 example : (step (reachPr 701 [.attach 1, .adv 4, .attach 2, .adv 4]) (.rsync 2 1)).2.2 =
